@@ -131,6 +131,16 @@ let dispatch cmd =
        | Ok d -> jres (fun ((m, dis), ((dir, v), hs)) ->
            "[" ^ jopt (fun r -> ji r.rc_line) m ^ "," ^ jb dis ^ "," ^ (match dir with Request -> "\"request\"" | Response -> "\"response\"") ^ "," ^ ji v ^ ","
            ^ jl (fun h -> "[" ^ jtext h.ph_name ^ "," ^ jtext h.ph_value ^ "]") hs ^ "]") (fp_http d t))
+  | "lookup_all" -> let lines = nlist ntext in let qs = nlist ntext in
+      (match parse_file lines with
+       | Err e -> "{\"dberr\":" ^ jerr e ^ "}"
+       | Ok d ->
+         let one raw section =
+           let rec go i acc = (match lookup raw section i with
+             | Ok r -> go (S i) (ji r.rc_line :: acc)
+             | Err (Crash CIndex) -> "{\"ok\":[" ^ String.concat "," (List.rev acc) ^ "]}"
+             | Err e -> jerr e) in go O [] in
+         jl (fun raw -> jl (one raw) [d.d_mtu; d.d_tcp_req; d.d_tcp_resp; d.d_http_req; d.d_http_resp]) qs)
   | _ -> failwith ("unknown command " ^ cmd)
 
 let () =
